@@ -236,10 +236,17 @@ LOG_LINES = {
     "log": ("(1700000000.123456) vcan0 7E8#0650014142434445", 0x7E8, "0650014142434445"),
     "log-lowercase": ("(0.5) can0 7e8#21aabbccddeeff00", 0x7E8, "21aabbccddeeff00"),
     "log-fd": ("(1700000000.5) vcan0 7E0##100100a22f190aabbccddeeff0011", 0x7E0, "00100a22f190aabbccddeeff0011"),
+    "candump-classic-fd-size": ("  vcan0  7E0  [12]  00 0A 22 F1 90 01 02 03 04 05 06 07", 0x7E0,
+                                "000a22f19001020304050607"),
+    "candump-classic-64": ("  vcan0  7E8  [64]  " + " ".join(["%02X" % (i % 256) for i in range(64)]), 0x7E8,
+                           "".join(["%02x" % (i % 256) for i in range(64)])),
+    # a frame without data bytes denotes nothing that could be reassembled: it is skipped (with a warning), not an error
+    "candump-classic-empty": ("  vcan0  7E0   [0]", None, None),
+    "garbage": ("this is no candump line", None, None),
 }
 
 
-@harness(props=["C12"], strength="E",
+@harness(props=["C12", "C13"], strength="E",
          family=lambda t, s: [{"first": a, "second": b} for a in LOG_LINES for b in ("log", "candump-classic")],
          functions=[IsoTpStateMachine.read_telegrams], covers=["read"], assumes=["A-lib"], crosscheck=False)
 def log_lines_denote_their_frames(first, second):
@@ -255,8 +262,13 @@ def log_lines_denote_their_frames(first, second):
     sm.decode_rx_frame = recorder
     text = LOG_LINES[first][0] + "\n" + LOG_LINES[second][0] + "\n"
     out = []
-    H.consume(lambda: sm.read_telegrams(io.StringIO(text)), lambda item: out.append(item))
-    want = [(LOG_LINES[k][1], bytes.fromhex(LOG_LINES[k][2])) for k in (first, second)]
+    try:
+        H.consume(lambda: sm.read_telegrams(io.StringIO(text)), lambda item: out.append(item))
+    except Exception:
+        H.check("C13:reading-a-log-never-raises", False)
+        return
+    H.check("C13:reading-a-log-never-raises", True)
+    want = [(LOG_LINES[k][1], bytes.fromhex(LOG_LINES[k][2])) for k in (first, second) if LOG_LINES[k][1] is not None]
     H.cover("read")
     H.check("C12:every-log-line-is-decoded-as-the-frame-it-denotes-in-file-order", seen == want)
     H.check("C12:what-the-frame-decoder-reports-is-yielded", out == want)
